@@ -483,7 +483,15 @@ def run(ctx):
                                   translated=len(translated),
                                   not_translated_outside_required_set=dict(untranslated_other),
                                   not_translated_required=dict(untranslated_req),
-                                  helper_programs=(len(res['progs']) - len(translated)) if res else 0),
+                                  helper_programs=(len(res['progs']) - len(translated)) if res else 0,
+                                  public_methods_translated=(res['methods'] if res else []),
+                                  public_methods_not_translated=(res['methods_failed'] if res else {}),
+                                  public_callables_not_covered_by_abstract_programs=sorted(
+                                      [k for k, _ in untranslated_req + untranslated_other]
+                                      + [k for k in SP.EXCLUDED if res is not None and k not in res['progs']
+                                         and k + '.__init__' not in res['progs']]),
+                                  not_covered_note='properties, classmethods and operator methods (__mul__, __add__, ...) of the '
+                                                   'public classes are exercised dynamically on reused objects only'),
                    static_exceptions=ex, exhaustive=False)
     if st.get('fresh_errors'):
         ctx.notes.append('fresh-process runner errors: %r' % (st['fresh_errors'],))
